@@ -594,3 +594,31 @@ Proof.
   left. exists 1, 1, [[97]%N; [99]%N]. split; [discriminate|]. split; [|reflexivity].
   repeat constructor; try discriminate; intros ch [<-|[<-|[]]] H; cbn in H; intuition discriminate.
 Qed.
+
+(* ==== round 4: histories =====================================================================
+   hrun (Algo/Construct.v) is the trace of a history on one tree: add_path_to_tree calls interleaved
+   with the structural edits del parent[name] / node.parent = other / node.sort(), each add recorded
+   as (tree before, path, attributes, (tree after, returned position)).  The correspondence runs the
+   same function (Corr/ConstructCorr.v run_ops via hedit) against the implementation. *)
+
+(* C05_history_adds_exact: after ANY sequence of adds and edits, each accepted add satisfies the
+   add_path clause against the tree as it is at that moment: paths = before ∪ prefixes, the returned
+   node is the node at the path, existing node objects are reused, new positions carry new objects.
+   (The model keeps no state between calls; this is the clause a module-level cache breaks.) *)
+Theorem C05_history_adds_exact : forall tsep sep ops t,
+  Forall (fun e => match e with (tb, path, _, r) => add_clause tb sep path r end)
+         (hrun tsep sep true t ops).
+Proof. exact history_adds_exact. Qed.
+Print Assumptions C05_history_adds_exact.
+
+(* non-vacuity: add a/b/c, detach a/b, add a/b/d: two accepted adds, the second one builds a fresh b *)
+Example C05_history_nonvacuous :
+  map (fun e => snd (snd e))
+      (hrun ex_slash ex_slash true (T (Some 0) ex_a [] [])
+            [HAdd ex_path []; HDel [ex_a; ex_b]; HAdd [97; 47; 98; 47; 100]%N []])
+  = [Ret [0; 0]; Ret [0; 0]]
+  /\ map (fun e => paths (fst (snd e)))
+         (hrun ex_slash ex_slash true (T (Some 0) ex_a [] [])
+               [HAdd ex_path []; HDel [ex_a; ex_b]; HAdd [97; 47; 98; 47; 100]%N []])
+     = [[[ex_a]; [ex_a; ex_b]; [ex_a; ex_b; ex_c]]; [[ex_a]; [ex_a; ex_b]; [ex_a; ex_b; [100]%N]]].
+Proof. vm_compute. auto. Qed.
